@@ -47,6 +47,7 @@ Abs(x) ==
     CASE x.e = "dp_rx" -> [e |-> "dp_rx", ep |-> x.ep, setup |-> x.setup, len |-> x.len, b |-> Pays[x.p].b, ok |-> PayOk[x.p]]
       [] x.e = "dhp"   -> [DecHdr(Hdrs[x.h], x.c) EXCEPT !.ok = (x.c = 0 /\ HdrOk[x.h])]
       [] x.e = "ddp"   -> [e |-> "ddp", b |-> Pays[x.p].b, ok |-> PayOk[x.p], fr |-> (x.fr = <<253, 253, 253, 247>> /\ x.tnz = 0)]
+      [] x.e = "w"     -> [e |-> "w", b |-> x.b, last |-> x.last, same |-> x.same]
       [] OTHER         -> x
 
 TInit == Init /\ tid \in 1..Len(Logs) /\ l = 1 /\ status = "ok"
